@@ -217,10 +217,11 @@ pub fn unb64(s: &str) -> Vec<u8> {
 /// Entry point called first thing from main(). Returns false unless
 /// argv[1] == "verif-harness", so the hook-on binary is a faithful CLI otherwise.
 pub fn intercept() -> bool {
-    let args: Vec<String> = std::env::args().collect();
-    if args.len() < 2 || args[1] != "verif-harness" {
+    // (args_os: FML's own command lines may hold arguments that are not UTF-8)
+    if std::env::args_os().nth(1).map(|a| a != "verif-harness").unwrap_or(true) {
         return false;
     }
+    let args: Vec<String> = std::env::args_os().map(|a| a.to_string_lossy().into_owned()).collect();
     // all harness work runs on a big-stack thread: deep ASTs / deep FML recursion must not
     // overflow the harness's own stack
     let h = std::thread::Builder::new().stack_size(2 << 30).spawn(move || harness_main(args)).expect("spawn harness thread");
